@@ -121,6 +121,16 @@ def marshalCQL : Dst → Option (List UInt8)
   | .bytes none => none      -- a nil []byte has length 0 ≠ 16
   | .str s => parseUUID (runes s)
 
+/-- `unmarshalTimeUUID` / `unmarshalUUID` into a `*time.Time` holding `prev` (Unix seconds, nanoseconds).
+    timeuuid column: `UUIDFromBytes(data)` (error unless 16 bytes — also for a null value), `Version() != 1` →
+    error, else `*v = id.Time()`.  uuid column: every path ends in an error.  An error leaves `*v` untouched. -/
+def unmarshalCQLTime (timeuuid : Bool) (data : List UInt8) (prev : Int × Nat) : Bool × (Int × Nat) :=
+  if !timeuuid then (false, prev)
+  else if data.length ≠ 16 then (false, prev)
+  else match time data with
+    | some t => (true, t)
+    | none => (false, prev)     -- version ≠ 1
+
 /-! ### sequences of decodes on ONE *UUID destination -/
 
 inductive Step where
